@@ -14,6 +14,7 @@ bootstrap.ensure()
 
 ID = "C14"
 LEVEL = "exploration"
+TECHNIQUE = "runtime monitoring: node-local structural invariant walker on every relation any factory call returns"
 RULE = (
     "seeded random base trees over a SQL engine and two iteration engines (as in C03); on each, a final operation "
     "whose column expression is an engine-restricted function (supported by sql.Engine only, iteration.Engine only, "
